@@ -112,10 +112,15 @@ pub fn gen_dispatch_case(g: &mut Gen, max_trains: usize, o: &CorridorOpts) -> Di
         .min(net.stages.last().unwrap().side.as_ref().map(|s| s.length).unwrap_or(f64::INFINITY));
     let max_len = term.min(term_side) - 200.0;
     let mut trains = vec![];
-    let same_time = g.bool(0.2);
+    // departure pattern: all equal / bunched within a few minutes / spread over an hour
+    let pattern = g.weighted(&[2, 4, 4]);
     for i in 0..n {
         let mut t = gen_corr_train(g, max_len);
-        t.init_time = if same_time { 0.0 } else { Gen::round(g.f64(0.0, 3600.0), 0) };
+        t.init_time = match pattern {
+            0 => 0.0,
+            1 => Gen::round(g.f64(0.0, 600.0), 0),
+            _ => Gen::round(g.f64(0.0, 3600.0), 0),
+        };
         let east = if i == 0 { g.bool(0.5) } else { g.bool(0.5) };
         trains.push(CorrTrain { east, train: t });
     }
